@@ -34,6 +34,11 @@ def gen(rng, tier, boost):
                 w = rng.randrange(4)
                 cases.append("P %d %s" % (w, fmt_list(jc.asc(c + t[:k]))))
                 dist["token_at_end"] = dist.get("token_at_end", 0) + 1
+    # D92: a lone high surrogate escape with 0..8 ordinary units behind it, cut at every offset, all four widths
+    # (the guard reads content[offset] and content[offset + 1]: both must stay inside the exact-size buffer)
+    lone = jc.lone_surrogate_cases(rng, lambda r: range(4), "P", full=(tier != "quick"))
+    cases.extend(lone)
+    dist["lone_surrogate_cut"] = len(lone)
     ndoc = (300 if tier == "quick" else 8000) * boost
     for _ in range(ndoc):
         w = rng.randrange(4)
